@@ -164,7 +164,7 @@ func TestProp(t *testing.T) {
 	for k := 0; k <= 5; k++ {
 		alpha = append(alpha, Op{"put", k}, Op{"remove", k})
 	}
-	L := r.Pick(5, 6)
+	L := r.Pick(6, 7)
 	core.Monitor(r, "btree-sweep", 0, func(emit func(Case)) {
 		n := seq.Enum(alpha, L, func(ops []Op) { emit(Case{Keys: 6, Ops: ops}) })
 		r.Exhaustive(fmt.Sprintf("all Put/Remove sequences of length<=%d over keys 0..5", L), n)
